@@ -1037,6 +1037,13 @@ def run(chk, replay):
     if not binp:
         chk.oblige("harness-build:cron", False, out[-3000:]); return
     chk.oblige("harness-build:cron", True)
+    # ---- the guards answered by the REAL client over real stores (no agent socket): x_c09_real
+    import x_c09_real
+    if replay and "real_case" in json.load(open(replay)).get("case", {}):
+        x_c09_real.replay(chk, binp, json.load(open(replay))["case"]["real_case"]); return
+    if not replay:
+        x_c09_real.leg(chk, binp)
+    real_stats = dict(chk.stats or {})
     rng = chk.rng
     quick = chk.tier == "quick"
     K = 1 if quick else 10
@@ -1201,7 +1208,7 @@ def run(chk, replay):
     if unparsable:
         chk.oblige("monitor:every-case-answered-in-the-expected-form", False, "%d cases with unparsable answers (harness crashed mid-stream), e.g. %s" % (len(unparsable), unparsable[:3]))
     dist.update(counters)
-    chk.stats = {"cases": len(cases), "distribution": dist,
+    chk.stats = {"cases": len(cases), "distribution": dist, "legs": real_stats,
                  "sim_flavours": {f: sum(1 for c in cases if c.get("flavour") == f) for f in sorted({c.get("flavour") for c in cases if c.get("flavour")})}}
     chk.rule = ("expressions: weighted grammar (values, names in any case, ranges, steps, N/s, lists of 1-4, */s, ?), targeted to fire at a chosen minute, "
                 "never-firing (31 Feb …), leap-day-only, robfig quirks (*-5, +5, empty list items, TZ= prefixes, odd spacing), invalid, random mutations; "
